@@ -303,7 +303,7 @@ def _run(case, obs):
     for i, s in enumerate(case["sus"]):
         spec = SUS_CLASSES[s["cls"]]
         cls = getattr(bs, "Suspend" + s["cls"])
-        obj = cls(sigs[s["sig"]], *spec.get("args", ()), sleep=s.get("sleep", 0), tripped_message=f"vf-sus{i}", **spec.get("kw", {}))
+        obj = cls(sigs[s["sig"]], *spec.get("args", ()), sleep=s.get("sleep", 0), tripped_message="vf-twins" if case.get("same_message") else f"vf-sus{i}", **spec.get("kw", {}))
         sus.append(obj)
     # detect suspender callbacks on the loop thread (would be a harness artefact)
     orig_call = bs.SuspenderBase.__call__
@@ -804,6 +804,19 @@ def sweep_cases(quick):
                             if w[-1]["do"] == "remove" or (wname in ("remove_trip", "trip_remove_remove_trip")):
                                 hist.append(I(0))  # left removed by the window: install again, then a gated call
                             yield _case(nm, sus, hist + [P(0, t), CALL(0, [[P(0, ok)]])])
+    # two suspenders of one class on one signal (identical justification texts), both gating; one is removed first
+    for cls in classes:
+        spec = SUS_CLASSES[cls]
+        t, ok = spec["trip"][0], spec["ok"][0]
+        for sl in ((0, 0), (0, 0.5)):
+            sus = [{"cls": cls, "sig": 0, "sleep": sl[0]}, {"cls": cls, "sig": 0, "sleep": sl[1]}]
+            for first in (0, 1):
+                for via in ("RE", "sus"):
+                    for last in ("ok", "remove"):
+                        rel = [R(first, via), P(0, ok) if last == "ok" else R(1 - first, via)]
+                        c = _case(f"sweep:twins:{cls}:{first}:{via}:{last}", sus, [I(0), I(1), P(0, t), CALL(1, [rel, []])])
+                        c["same_message"] = True  # like two suspenders made with default arguments
+                        yield c
     # two suspenders on two signals, both gating; released one after the other in both orders and by different means
     for a, b in (("ok", "remove"), ("remove", "ok"), ("ok", "ok"), ("remove", "remove")):
         sus = [{"cls": "BoolHigh", "sig": 0, "sleep": 0}, {"cls": "Floor", "sig": 1, "sleep": 0.5}]
